@@ -4,7 +4,7 @@
    prints.  All logic is here so the hand-written OCaml driver only converts
    integers and prints lines. *)
 From Coq Require Import List ZArith Bool.
-From Termemu Require Import Base Style Screen Kbd Parser Term.
+From Termemu Require Import Base Style Screen Kbd Parser Term Uniseg Grapheme GTerm.
 Import ListNotations.
 Open Scope Z_scope.
 
@@ -150,7 +150,19 @@ Definition dec_term (recs : list (list Z)) : term :=
 (* line tags: 100 header [mode; grid; W; H], 101 width table, 110 feed bytes,
    111 resize w h, 199 end *)
 Record cst := mkCst { c_t : term; c_pend : list Z; c_tbl : list Z; c_grid : bool; c_idx : Z;
-                      c_load : list (list Z) }.
+                      c_load : list (list Z); c_gmode : bool; c_rs : rstate; c_xt : Z }.
+
+(* reader state record: [10; grapheme state; property; forceMergeNext; lastWasRI], -1 -1 for state -1 *)
+Definition enc_rs (rs : rstate) : list Z :=
+  match rs_state rs with
+  | None => [10; -1; -1; enc_bool (rs_fm rs); enc_bool (rs_ri rs)]
+  | Some (g, p) => [10; g; p; enc_bool (rs_fm rs); enc_bool (rs_ri rs)]
+  end.
+Definition dec_rs (l : list Z) : rstate :=
+  match l with
+  | g :: p :: fm :: ri :: _ => mkRs (if g <? 0 then None else Some (g, p)) (negb (fm =? 0)) (negb (ri =? 0))
+  | _ => rs0
+  end.
 
 (* observation mask: bit i set = print records with tag i; 0 = everything *)
 Definition masked (mask : Z) (recs : list (list Z)) : list (list Z) :=
@@ -160,18 +172,30 @@ Definition masked (mask : Z) (recs : list (list Z)) : list (list Z) :=
 Definition run_op (st : cst) (line : list Z) : cst * list (list Z) :=
   match line with
   | 110 :: bs =>
-      if crashed (c_t st) then (st, enc_obs (c_idx st) (c_t st) (zlen (c_pend st))) else
+      if crashed (c_t st) then (st, enc_obs (c_idx st) (c_t st) (zlen (c_pend st)) ++ [enc_rs (c_rs st)]) else
+      if c_gmode st then
+        (* grapheme mode: the width and segmentation model; the per-case width table is not used *)
+        let '(t', rs', pend') := ghstep true (c_grid st) (clear_io (c_t st), c_rs st, c_pend st) (HFeed bs) in
+        (* span buffer: rows whose text would segment into other cells (KF-grapheme-merge); the mark stays *)
+        let xt := if c_grid st then 0
+                  else if negb (c_xt st =? 0) then c_xt st
+                  else if screen_reseg_ok (tmain t') && screen_reseg_ok (talt t') then 0 else trReseg in
+        (mkCst t' pend' (c_tbl st) (c_grid st) (c_idx st + 1) [] true rs' xt,
+         enc_obs_x (c_idx st) t' (zlen pend') xt ++ [enc_rs rs'])
+      else
       let '(t', pend') := hstep (wc_of (c_tbl st)) (c_grid st) (clear_io (c_t st), c_pend st) (HFeed bs) in
-      (mkCst t' pend' (c_tbl st) (c_grid st) (c_idx st + 1) [], enc_obs (c_idx st) t' (zlen pend'))
+      (mkCst t' pend' (c_tbl st) (c_grid st) (c_idx st + 1) [] false (c_rs st) (c_xt st),
+       enc_obs (c_idx st) t' (zlen pend') ++ [enc_rs (c_rs st)])
   | 111 :: w :: h :: _ =>
-      if crashed (c_t st) then (st, enc_obs (c_idx st) (c_t st) (zlen (c_pend st))) else
+      if crashed (c_t st) then (st, enc_obs (c_idx st) (c_t st) (zlen (c_pend st)) ++ [enc_rs (c_rs st)]) else
       let t' := fst (hstep (wc_of (c_tbl st)) (c_grid st) (clear_io (c_t st), c_pend st) (HResize w h)) in
       let xt := match c_pend st with 27 :: _ => trLockedRead | _ => 0 end in
-      (mkCst t' (c_pend st) (c_tbl st) (c_grid st) (c_idx st + 1) [], enc_obs_x (c_idx st) t' (zlen (c_pend st)) xt)
+      (mkCst t' (c_pend st) (c_tbl st) (c_grid st) (c_idx st + 1) [] (c_gmode st) (c_rs st) (c_xt st),
+       enc_obs_x (c_idx st) t' (zlen (c_pend st)) (Z.lor xt (c_xt st)) ++ [enc_rs (c_rs st)])
   | 120 :: r =>     (* one record of an observed state to continue from *)
-      (mkCst (c_t st) (c_pend st) (c_tbl st) (c_grid st) (c_idx st) (c_load st ++ [r]), [])
+      (mkCst (c_t st) (c_pend st) (c_tbl st) (c_grid st) (c_idx st) (c_load st ++ [r]) (c_gmode st) (c_rs st) (c_xt st), [])
   | 121 :: _ =>     (* load the accumulated records *)
-      (mkCst (dec_term (c_load st)) [] (c_tbl st) (c_grid st) (c_idx st) [], [])
+      (mkCst (dec_term (c_load st)) [] (c_tbl st) (c_grid st) (c_idx st) [] (c_gmode st) (dec_rs (rec_of 10 (c_load st))) 0, [])
   | _ => (st, [])
   end.
 
@@ -185,6 +209,6 @@ Definition run_case (lines : list (list Z)) : list (list Z) :=
   match lines with
   | (100 :: mode :: grid :: w :: h :: more) :: (101 :: tbl) :: rest =>
       masked (match more with m :: _ => m | [] => 0 end)
-        (run_ops (mkCst (init_term w h) [] tbl (negb (grid =? 0)) 0 []) rest)
+        (run_ops (mkCst (init_term w h) [] tbl (negb (grid =? 0)) 0 [] (mode =? 1) rs0 0) rest)
   | _ => [[0]]
   end.
